@@ -1,7 +1,7 @@
 #!/usr/bin/env python3
 """Runs every sensitivity mutant (mutants/<ID>/*.diff) and seeded break (seeded/<ID>-*/patch.diff)
 through tools/mutant.sh (build overlay, /repo untouched) and records the outcome in
-mutants/RESULTS.json. Properties run in parallel (default 4), patches of one property sequentially.
+mutants/RESULTS.json. Patches run in parallel (default 4); every run is isolated (own binary, overlay, statistics, replays) and never writes evidence/.
 Usage: tools/mutants_record.py [-j N] [ID ...]"""
 import glob, json, os, subprocess, sys, time
 from concurrent.futures import ThreadPoolExecutor
@@ -15,22 +15,25 @@ ids = args or open("tools/ready.txt").read().split()
 out_path = os.path.join(V, "mutants", "RESULTS.json")
 res = json.load(open(out_path)) if os.path.exists(out_path) else {}
 
-def one(pid):
-    r = {}
+def items_of(pid):
     items = [(os.path.basename(p)[:-5], p) for p in sorted(glob.glob("mutants/%s/*.diff" % pid))]
     items += [("seeded:" + os.path.basename(os.path.dirname(p)), p) for p in sorted(glob.glob("seeded/%s-*/patch.diff" % pid))]
-    for name, p in items:
-        t0 = time.time()
-        o = subprocess.run(["tools/mutant.sh", pid, p], capture_output=True, text=True).stdout.strip().splitlines()
-        last = o[-1] if o else "?"
-        r[name] = {"result": last.split()[0] if last else "?", "wall_s": round(time.time() - t0, 1)}
-        print(pid, name, r[name], flush=True)
-    # leave fresh quick evidence behind
-    subprocess.run(["./check", pid, "quick"], capture_output=True)
-    return pid, r
+    return items
 
+def one(job):
+    pid, name, p = job
+    t0 = time.time()
+    o = subprocess.run(["tools/mutant.sh", pid, p], capture_output=True, text=True).stdout.strip().splitlines()
+    last = o[-1] if o else "?"
+    r = {"result": last.split()[0] if last else "?", "wall_s": round(time.time() - t0, 1)}
+    print(pid, name, r, flush=True)
+    return pid, name, r
+
+jobs = [(pid, name, p) for pid in ids for name, p in items_of(pid)]
+for pid in ids:
+    res[pid] = {}
 with ThreadPoolExecutor(max_workers=j) as ex:
-    for pid, r in ex.map(one, ids):
-        res[pid] = r
+    for pid, name, r in ex.map(one, jobs):
+        res[pid][name] = r
         json.dump(res, open(out_path, "w"), indent=1, sort_keys=True)
 print("written", out_path)
